@@ -141,7 +141,9 @@ def ref_match(toks, s, env):
     if t[0] == "one":
         return len(s) >= 1 and s[0] != "/" and ref_match(rest, s[1:], env)
     if t[0] == "set":
-        return len(s) >= 1 and s[0] in t[1] and ref_match(rest, s[1:], env)
+        # `!` negates only as the first character of the set (and a negated set does not match the separator)
+        hit = len(s) >= 1 and ((s[0] not in t[1][1:] and s[0] != "/") if t[1].startswith("!") else s[0] in t[1])
+        return hit and ref_match(rest, s[1:], env)
     if t[0] == "star":
         for k in range(0, len(s) + 1):
             if "/" in s[:k]:
@@ -374,7 +376,7 @@ def _work(args):
 @bounded("compilers_and_filesystem", props=["C17"],
          bound="patterns of up to 3 (quick) / 4 (thorough) tokens over {a . / * ? [ab] ** ${*n} ${*m}} (well-formed ones), "
                "on every tree of a family of small directory trees of depth up to 2 (quick) / 3 (thorough) over the names "
-               "{a, b, .h, ab}; checks A-D and R on every (pattern, tree), checks A and S with three substitutions (an explicit star for every name, `?*` and `[ab]` for the first name) on every (pattern with names, tree), check E on every ordered pair of trees (quick: 24 trees in which every name occurs as a file, as an empty directory and as a directory with entries; thorough: these and a seeded sample of 16 more) per pattern")
+               "{a, b, .h, ab}; checks A-D and R on every (pattern, tree), checks A and S with three substitutions (an explicit star for every name, `?*` and `[ab]` for the first name) on every (pattern with names, tree), check E on every ordered pair of trees (quick: 24 trees in which every name occurs as a file, as an empty directory and as a directory with entries; thorough: these and a seeded sample of 16 more) per pattern; plus seven patterns with character sets in which `!` occurs first and elsewhere over two trees with names containing `!` and `^`")
 def compilers_and_filesystem(tier, seed):
     import concurrent.futures
     import multiprocessing
@@ -395,9 +397,15 @@ def compilers_and_filesystem(tier, seed):
         tree_list = [tree_list[i] for i in spread] + rest[:16]
     size = max(1, len(pats) // 64)
     chunks = [(pats[i:i + size], tree_list, seed + i, True) for i in range(0, len(pats), size)]
+    # character sets: `!` negates only as the first character of a set, anywhere else it is a member; names with `!`
+    # and `^` tell the two readings apart (checks A-D, no incremental pairs)
+    set_pats = ["[a!]", "[!a]", "[?!]", "x[a!]", "[a!]x", "[!a]x", "${*n}[a!]"]
+    set_trees = [frozenset({"a", "!", "^", "b", "xa", "x!", "x^", "xb", "ax", "!x", "^x", "bx"}),
+                 frozenset({"a", "!", "x!", "d/", "d/!", "d/a"})]
+    chunks.append((set_pats, set_trees, seed, False))
     failures, n = [], 0
     with concurrent.futures.ProcessPoolExecutor(max_workers=16, mp_context=multiprocessing.get_context("fork")) as ex:
         for f, k in ex.map(_work, chunks):
             failures.extend(f)
             n += k
-    return dict(evaluations=n, failures=failures, patterns=len(pats), trees=len(tree_list))
+    return dict(evaluations=n, failures=failures, patterns=len(pats) + len(set_pats), trees=len(tree_list) + len(set_trees))
